@@ -111,6 +111,9 @@ func c11(args []string) int {
 		return rc
 	}
 	// ---------------- part 3: in-process server ----------------
+	if rc := c11Stage(run, dir); rc != 0 {
+		return rc
+	}
 	if rc := c11Server(run, dir); rc != 0 {
 		return rc
 	}
